@@ -197,6 +197,101 @@ theorem enqueue_appends (cfg : Cfg) (st : State) (w : Nat) (i : Inv)
   simp [enqueue, hroom]
   intro w' hw; simp [hw]
 
+/-! ### what the handler is given is a prefix of what was accepted -/
+
+/-- History-level: for every worker (= one invocation id), the sequence of INVOCATION messages given
+    to the handler so far is a prefix of the sequence accepted from the router for it (both ghost
+    logs are newest first); while the worker is live the difference is exactly its queue, in
+    order; a worker that has stopped reading never takes another message. -/
+def InvPrefix (st : State) : Prop :=
+  (∀ w, (st.ws w).live = true → (st.ws w).accepted = (st.ws w).queue.reverse ++ (st.ws w).handled) ∧
+  (∀ w, ∃ rest, (st.ws w).accepted = rest ++ (st.ws w).handled) ∧
+  (∀ w, w < st.n → (st.ws w).live = false → (match (st.ws w).inner with | .exited => True | _ => False))
+
+theorem invPrefix_init : InvPrefix {} := by
+  refine ⟨?_, ?_, ?_⟩ <;> intros <;> simp_all
+
+theorem invPrefix_step (cfg : Cfg) (st : State) (ev : Ev) (st' : State) (hl : InvLive st)
+    (hinv : InvPrefix st) (h : step cfg st ev = some st') : InvPrefix st' := by
+  obtain ⟨ha, hb, hx⟩ := hinv
+  obtain ⟨hl1, hl2⟩ := hl
+  analyse_istep
+  all_goals (try (have hfs := findLive_some hfl))
+  all_goals (refine ⟨?_, ?_, ?_⟩)
+  all_goals intro w0
+  all_goals (have ha0 := ha w0; have hb0 := hb w0; have hx0 := hx w0)
+  all_goals (try (simp [cleanup, afterResult, outerFinish, enqueue, create, State.setW, State.emit] at *))
+  all_goals (try (by_cases hq' : (st.ws w).queue.length < cfg.queueCap <;> simp [hq'] at *))
+  all_goals (try (by_cases hw : w0 = w <;> simp [hw] at *))
+  all_goals (try (grind [cleanup, afterResult]))
+  all_goals (try (by_cases hn : w0 = st.n <;> simp [hn] at *))
+  all_goals (try (exact hb0))
+  all_goals (try (grind [cleanup, afterResult]))
+
+/-! ### SendProgress -/
+
+/-- `SendProgress` gets past its lookups only for an invocation whose caller asked for progressive
+    results (the request id is in the handler's context and in `progGate`). -/
+def InvSp (st : State) : Prop := ∀ w, (st.ws w).spArmed = true → (st.ws w).progOK = true ∧ w < st.n
+
+theorem invSp_init : InvSp {} := by intro w h; simp at h
+
+theorem invSp_step (cfg : Cfg) (st : State) (ev : Ev) (st' : State) (hf : InvFresh st)
+    (hinv : InvSp st) (h : step cfg st ev = some st') : InvSp st' := by
+  have hfn := hf.1 st.n (Nat.le_refl _)
+  analyse_istep
+  all_goals (try (have hfs := findLive_some hfl))
+  all_goals (intro w0 hw0; have h0 := hinv w0)
+  all_goals (try (simp [cleanup, afterResult, outerFinish, enqueue, create, State.setW, State.emit] at *))
+  all_goals (try (by_cases hq' : (st.ws w).queue.length < cfg.queueCap <;> simp [hq'] at *))
+  all_goals (try (by_cases hw : w0 = w <;> simp [hw] at *))
+  all_goals (try (grind [cleanup, afterResult]))
+  all_goals (try (by_cases hn : w0 = st.n <;> simp [hn] at *))
+  all_goals (try (grind [cleanup, afterResult]))
+  all_goals (
+    by_cases hlt : w0 < st.n
+    · split <;> simp_all
+    · have hz := hf.1 w0 (by omega)
+      split <;> simp_all)
+
+/-- The YIELD of `SendProgress` carries the invocation's request id and `progress: true`. -/
+theorem spSend_sends (cfg : Cfg) (st st' : State) (w : Nat) (h : step cfg st (.spSend w) = some st') :
+    st'.out = .progressSent w :: .send (.yield (st.ws w).req true) :: st.out := by
+  unfold step at h
+  split at h
+  · simp at h
+  simp only at h
+  split at h <;> simp at h
+  subst h
+  simp [State.emit, State.setW]
+
+/-- A handler calling `SendProgress` for a caller that did not ask for progressive results, or after
+    the gate was removed (the invocation was answered), is refused and nothing is sent. -/
+theorem spCheck_refuses (cfg : Cfg) (st st' : State) (w : Nat)
+    (hg : ((st.ws w).progOK && st.progGate (st.ws w).req) = false)
+    (h : step cfg st (.spCheck w) = some st') : st' = st.emit (.progressRefused w) := by
+  unfold step at h
+  split at h
+  · simp at h
+  simp only at h
+  split at h
+  · split at h
+    · simp at h
+    · simp only [hg] at h
+      simpa using h.symm
+  · simp at h
+
+/-- Race (observation): a handler that ignores its cancelled context and is inside `SendProgress`, past
+    the gate lookup, when the worker answers the INTERRUPT with ERROR: its progressive YIELD follows
+    the invocation's ERROR. -/
+def progressAfterAnswer : List Ev :=
+  [.recvInvocation { req := 7, reg := 3, details := [(N.OptReceiveProgress, .bool true)] } true, .innerTake 0,
+   .spCheck 0, .recvInterrupt 7, .outerCtx 0, .outerAnswer 0 false, .spSend 0]
+
+theorem progress_after_answer_possible :
+    (steps {} {} progressAfterAnswer).map (fun st => st.out.filterMap fun o => match o with | .send m => some m | _ => none) =
+      some [.yield 7 true, .error tINVOCATION 7 N.ErrCanceled] := by decide
+
 /-! ### all invariants, for every reachable state -/
 
 structure AllInv (st : State) : Prop where
@@ -205,15 +300,18 @@ structure AllInv (st : State) : Prop where
   answer : InvAnswer st
   shape : InvAnswerShape st
   matching : InvMatch st
+  prefix_ : InvPrefix st
+  sp : InvSp st
 
 theorem allInv_init : AllInv {} :=
-  ⟨invLive_init, invFresh_init, invAnswer_init, invAnswerShape_init, invMatch_init⟩
+  ⟨invLive_init, invFresh_init, invAnswer_init, invAnswerShape_init, invMatch_init, invPrefix_init, invSp_init⟩
 
 theorem allInv_step (cfg : Cfg) (st : State) (ev : Ev) (st' : State) (hi : AllInv st)
     (h : step cfg st ev = some st') : AllInv st' :=
   ⟨invLive_step cfg st ev st' hi.live h, invFresh_step cfg st ev st' hi.fresh h,
    invAnswer_step cfg st ev st' hi.live hi.fresh hi.answer h,
-   invAnswerShape_step cfg st ev st' hi.fresh hi.shape h, invMatch_step cfg st ev st' hi.matching h⟩
+   invAnswerShape_step cfg st ev st' hi.fresh hi.shape h, invMatch_step cfg st ev st' hi.matching h,
+   invPrefix_step cfg st ev st' hi.live hi.prefix_ h, invSp_step cfg st ev st' hi.fresh hi.sp h⟩
 
 theorem allInv_reachable (cfg : Cfg) (st : State) (h : Reachable cfg st) : AllInv st :=
   reachable_invariant cfg AllInv allInv_init (allInv_step cfg) st h
